@@ -55,8 +55,8 @@ Verdict(e) ==
     [] op = "square" -> SquareOK(Arg(e.a), e.r)
     [] op = "cube" -> CubeOK(Arg(e.a), e.r)
     [] op = "sum" -> SumOK([i \in 1..Len(e.xs) |-> Arg(e.xs[i])], e.r)
-    [] op = "abs_sub" -> AbsSubOK(Arg(e.a), Arg(e.b), e.r)
-    [] op = "signum" -> SignumOK(Arg(e.a), e.r)
+    [] op = "abs_sub" -> Soft(AbsSubOK(Arg(e.a), Arg(e.b), e.r))
+    [] op = "signum" -> Soft(SignumOK(Arg(e.a), e.r))
     [] op = "digits" -> DigitsOK(WArg(e.a), e.r)
     [] op = "sign" -> SignOK(WArg(e.a), e.r)
     [] op = "scale" -> ScaleOK(WArg(e.a), e.r)
@@ -68,7 +68,7 @@ Verdict(e) ==
     [] op = "normalized" -> NormalizedOK(WArg(e.a), e.r)
     [] op = "with_scale" -> WithScaleOK(Arg(e.a), e.t, e.r)
     [] op = "with_prec" -> WithPrecOK(Arg(e.a), e.p, e.r)
-    [] op = "consts" -> RepIs(e.r, IF e.form = "one" THEN DOne ELSE DZero)
+    [] op = "consts" -> Soft(RepIs(e.r, IF e.form = "one" THEN DOne ELSE DZero))
     [] op = "with_scale_round" -> WithScaleRoundOK(Arg(e.a), e.t, e.m, e.r)
     [] op = "round" -> WithScaleRoundOK(Arg(e.a), e.t, cfg.mode, e.r)
     [] op = "round_pair" -> RoundPairOK(e.m, e.sign, e.lhs, e.rhs, e.tz, e.r)
@@ -79,7 +79,7 @@ Verdict(e) ==
     [] op = "ctx_round" -> WithPrecisionRoundOK(Arg(e.a), e.p, e.m, e.r)
     [] op = "ctx_add" -> CtxAddOK(Arg(e.a), Arg(e.b), e.p, e.m, e.r)
     [] op = "ctx_default" -> CtxIs(e.r, cfg.precision, cfg.mode)
-    [] op = "ctx_setters" -> CtxIs(e.r, e.p, e.m)
+    [] op = "ctx_setters" -> Soft(CtxIs(e.r, e.p, e.m))
     [] op = "cmp" -> CmpOK(e.form, WArg(e.a), WArg(e.b), e.r)
     [] op = "maxmin" -> MaxMinOK(e.form, WArg(e.a), WArg(e.b), e.r)
     [] op = "sort" -> SortOK([i \in 1..Len(e.xs) |-> WArg(e.xs[i])], e.r)
@@ -94,7 +94,8 @@ Verdict(e) ==
     [] op = "fmt" -> FormatEventOK(e, IF "N" \in DOMAIN e THEN Arg(e.a) ELSE DZero, WArg(e.a), cfg)
     [] op = "from_float" -> FromFloatOK(ZOf(e.bits).m, e.w, e.r)
     [] op = "to_float" -> ToFloatOK(Arg(e.a), e.r)
-    [] op = "float_roundtrip" -> FloatRoundTripOK(ZOf(e.bits).m, e.w, e.r)
+    [] op = "float_roundtrip" -> IF e.form = "to_f32" THEN Soft(FloatRoundTripOK(ZOf(e.bits).m, e.w, e.r))     \* to_f32 is not promised by C14
+                                 ELSE FloatRoundTripOK(ZOf(e.bits).m, e.w, e.r)
     [] op = "to_int" -> ToIntOK(e.form, Arg(e.a), e.r)
     [] op = "is_integer" -> IsIntegerOK(Arg(e.a), e.r)
     [] op = "from_int" -> FromIntOK(ZOf(e.v), e.r)
